@@ -1,4 +1,5 @@
 import CModel.Handlers
+import Properties.C08
 /-!
 # C15 — no request can crash a node
 
@@ -42,5 +43,11 @@ theorem no_handler_panics (sites : List HazardSite) (hs : ∀ h ∈ sites, h ∈
 /-- An unguarded conversion does panic on a short value: the obligation is not vacuous. -/
 theorem unguarded_conv_panics :
     runSite ⟨"p", "f", 1, .conv32, "x", false⟩ ⟨31, true, 32⟩ = .panic := by decide
+
+/-- A handler that returns must not keep a mutex (the next request touching the same table would never
+return): every exit of every function of the node's packages is clean - the regenerated table and the
+theorem are C08's (`Props.C08.all_lock_exits_clean`, `no_exit_leaves_a_lock_held`). -/
+theorem handlers_release_their_locks (calls : List LockExit) (hc : ∀ e ∈ calls, e ∈ lockExits ∧ e.kind ≠ .block) :
+    CModel.LockExit.afterCalls calls = [] := Props.C08.no_exit_leaves_a_lock_held calls hc
 
 end Props.C15
